@@ -130,6 +130,8 @@ package remoting
 // address up under one critical section and inserts under a later one does not satisfy this (other senders may have
 // inserted in between - the engine makes guarded data arbitrary at a re-acquisition).
 //@ guarded (*MailboxCentral).mailboxes by lock deep
+//@ pure mcwf(rmc *MailboxCentral) bool = rmc != nil && rmc.mailboxes != nil && !held(rmc.lock) &&
+//@     forall a string :: a in rmc.mailboxes ==> rmc.mailboxes[a] != nil
 //@ func newMailbox
 //@   trusted
 //@   ensures result != nil && fresh(result)
@@ -138,8 +140,7 @@ package remoting
 //@   ghostvar prev any
 //@   callspec Lock sets had = (advertiseAddr in rmc.mailboxes ? 1 : 0), prev = iface(rmc.mailboxes[advertiseAddr])
 //@   callspec RLock sets had = (advertiseAddr in rmc.mailboxes ? 1 : 0), prev = iface(rmc.mailboxes[advertiseAddr])
-//@   requires rmc != nil && rmc.mailboxes != nil && !held(rmc.lock)
-//@   requires forall a string :: a in rmc.mailboxes ==> rmc.mailboxes[a] != nil
+//@   requires mcwf(rmc)
 //@   lockinv  forall a string :: a in rmc.mailboxes ==> rmc.mailboxes[a] != nil
 //@   modifies rmc.mailboxes[*]
 //@   ensures  result != nil && !held(rmc.lock)
